@@ -12,7 +12,13 @@ DOMAINS = {
     ('stdnum.luhn', 'alphabet'): ['0123456789', '0123456789abcdef', '0123456789ABCDEFGHIJKLMNOPQRSTUVWXYZ'],
     ('stdnum.iso7064.mod_37_2', 'alphabet'): ['0123456789ABCDEFGHIJKLMNOPQRSTUVWXYZ*', '0123456789X'],
     ('stdnum.iso7064.mod_37_36', 'alphabet'): ['0123456789ABCDEFGHIJKLMNOPQRSTUVWXYZ', '0123456789'],
-    ('stdnum.damm', 'table'): [None],
+    # the alternative table printed in the damm docstring
+    ('stdnum.damm', 'table'): [None, ((0, 2, 3, 4, 5, 6, 7, 8, 9, 1), (2, 0, 4, 1, 7, 9, 5, 3, 8, 6),
+                                      (3, 7, 0, 5, 2, 8, 1, 6, 4, 9), (4, 1, 8, 0, 6, 3, 9, 2, 7, 5),
+                                      (5, 6, 2, 9, 0, 7, 4, 1, 3, 8), (6, 9, 7, 3, 1, 0, 8, 5, 2, 4),
+                                      (7, 5, 1, 8, 4, 2, 0, 9, 6, 3), (8, 4, 6, 2, 9, 5, 3, 0, 1, 7),
+                                      (9, 8, 5, 7, 3, 1, 6, 4, 0, 2), (1, 3, 9, 6, 8, 4, 2, 7, 5, 0))],
+    ('stdnum.meid', 'format'): [None, 'hex', 'dec'],
 }
 
 
